@@ -2,7 +2,7 @@
     Definitions only (extracted and run against the Go code). *)
 From Coq Require Import Strings.String Strings.Byte.
 From Coq Require Import List Arith NArith ZArith Bool.
-From PV Require Import Base.Bytes Base.Outcome Base.KV Proto.Model.
+From PV Require Import Base.Bytes Base.Base64 Base.Outcome Base.KV Proto.Model.
 From PV Require Generated.GenConst.
 Import ListNotations.
 Local Open Scope N_scope.
@@ -253,6 +253,10 @@ Definition q_did (st : did_state) (did : bytes) : did_answer :=
   if entry_empty e then DNotFound
   else if entry_deactivated e then DDeactivated
   else match en_doc e with Some d => DFound d (en_seq e) | None => DNotFound end.
+
+(** Query/DID as the gRPC handler receives it: the did_base64 field is decoded with base64.StdEncoding.DecodeString;
+    [None] = InvalidArgument "invalid did_base64" *)
+Definition q_did64 (st : did_state) (raw : bytes) : option did_answer := option_map (q_did st) (b64_decode raw).
 
 (** ** genesis: ExportGenesis lists every stored entry under its DID; InitGenesis stores each entry.
     GenesisState.Validate: every key is a valid DID and every document is Valid() *)
